@@ -486,7 +486,9 @@ pub fn run(args: &Args) {
       x if x.contains("yield ") => format!("function* z{i}() {{ try {{ return {x}; }} catch (e) {{ c(); }} a(); }}"),
       x if x.contains("super.") => format!("class Z{i} extends B {{ m() {{ try {{ return {x}; }} catch (e) {{ c(); }} a(); }} }}"),
       x => format!("function z{i}() {{ try {{ return {x}; }} catch (e) {{ c(); }} a(); }}
-function y{i}() {{ try {{ {x}; throw e; }} catch {{ c(); }} finally {{ f(); }} a(); }}"),
+function y{i}() {{ try {{ {x}; throw e; }} catch {{ c(); }} finally {{ f(); }} a(); }}
+const o{i} = {{ get g() {{ try {{ return {x}; }} catch {{ }} }} }};
+function w{i}(s) {{ switch (s) {{ case 0: try {{ var v{i} = {x}; break; }} catch {{ }} case 1: f(); }} }}"),
     };
     let ext = if e.contains("<div") { "tsx" } else { "ts" };
     run_one(&mut out, &wrap, ext, &["expression-zoo"], n);
